@@ -130,6 +130,9 @@ def run_case(case, rec, cid, begin=True):
         elif src == "ref-env":
             env_ref = item
             argv += ["ref"]
+        elif src == "ref-both":      # option AND environment, naming different instants: the option is what `ref` means
+            env_ref = "20371225T000000Z" if item != "20371225T000000Z" else "1999-12-31T23:59:59+05:30"
+            argv += [("-R" if case.get("seed", 0) % 2 and not item.startswith("-") else "--ref=") + item, "ref"]
         else:
             argv += [item]
         argv += off_args(rnd, rnd.choice(["--offset", "--offset1", "-s"]), case["offs"])
@@ -355,7 +358,7 @@ def expand(job):
                 case["pp"] = [{"d": "F", "c": 0}, {"d": "lit", "c": 84}, {"d": "X", "c": 0}, {"d": "z", "c": 0}]
             y2 = rnd.random()
             if y2 < 0.1 and "pp" not in case:
-                case["src"] = rnd.choice(["ref-opt", "ref-env"])
+                case["src"] = rnd.choice(["ref-opt", "ref-env", "ref-both"])
             yield case
         elif x < 0.7:
             case = dict(base, kind="diff", g=pick_g(rnd, m, forms), g2=pick_g(rnd, m, forms),
